@@ -465,7 +465,8 @@ def run_scenarios(ctx, rule, scenarios, min_decided=None, jobs=None):
             q = anchor.qualname if anchor is not None else "scenario"
             rule.fail(q, f"e2e:{label}", anchor.file if anchor is not None else "?", anchor.lineno if anchor is not None else 0, q.split(".")[-1], f"end-to-end scenario '{label}': {msg}")
     ctx.extra.setdefault("e2e", {})[rule.id] = {"scenarios": len(_SCEN), "decided": decided, "undecided": [l for (l, _, _), (st, _) in zip(_SCEN, results) if st == "undecided"]}
-    need = len(_SCEN) // 2 + 1 if min_decided is None else min_decided
-    if decided < need:
-        raise AnalysisError(f"only {decided} of {len(_SCEN)} end-to-end scenarios could be interpreted (minimum {need})")
+    # no fail-closed here, by design (DESIGN 7.13): the scenarios are additive to the clause rules of the property; a
+    # construct outside the exact model leaves a scenario without verdict (printed, counted in the evidence), it is not an alarm
+    if decided < len(_SCEN):
+        rule.note(f"{len(_SCEN) - decided} of {len(_SCEN)} scenarios undecided")
     return decided
